@@ -1,3 +1,545 @@
-/-! C06 property theorems — stub (not built yet). -/
+import TTProofs.Lemmas.C06_Real
+import TTGen.C06_Devices
+/-!
+# C06 — node-height parameterisations yield a valid time tree and are invertible; device and
+dtype moves keep the parameterisation
+
+All theorems are about the executable model `TTModel/C06_Heights.lean` (the loops of
+`tree_height_transform.py` / `tree_model.py` as written, with their index conventions) and about
+the device table regenerated from the source (`TTGen/C06_Devices.lean`). They hold for EVERY
+rooted binary tree `T` on `n ≥ 2` taxa (`WF n T`: the tips are the taxa `0…n-1`, each once), every
+sampling-time vector `s`, every parameter vector in the stated domain. Reals throughout.
+
+Notation: `B = bounds n s (postorder n T)` (`_bounds`), `h = ratioFwd …` (`transform(x)`),
+`H = nodeHeights n s h` (`node_heights`), `preorder n T` = all `(parent, child)` edges.
+-/
 namespace TTProps.C06
+open TT.C06 TTGen.C06Devices
+
+variable {n : Nat} {T : BTree}
+
+/-! ## bounds -/
+
+/-- **bounds_correct**: for every node of the tree (root of the subtree `t` numbered from `k`),
+`_bounds[node]` is the largest sampling time among the tips below it — stated against an
+independent declarative notion (`IsMaxOver`: an upper bound that is attained). -/
+theorem bounds_correct (hT : WF n T) (s : Nat → ℝ) {t : BTree} {k : Nat} (h : SubAt T n t k) :
+    IsMaxOver s t.tips (bounds n s (postorder n T) (t.rootIdx k)) :=
+  bounds_sub hT s t k h.post_subset (fun x hx => hT.2.1 x (h.tips_subset x hx))
+
+theorem root_index (hT : WF n T) (hn : 2 ≤ n) : T.rootIdx n = 2 * n - 2 := by
+  have := hT.ints
+  have := rootIdx_succ (k := n) (t := T) (by omega)
+  omega
+
+/-- the bound of the root is the oldest tip of the whole tree -/
+theorem root_bound_is_oldest_tip (hT : WF n T) (hn : 2 ≤ n) (s : Nat → ℝ) :
+    IsMaxOver s T.tips (bounds n s (postorder n T) (2 * n - 2)) := by
+  rw [← root_index hT hn]; exact bounds_correct hT s SubAt.refl
+
+/-! ## the ratio transform -/
+
+/-- closed domain of the ratio parameterisation: ratios in `[0,1]`, root height at least the
+oldest tip -/
+structure RatioDom (n : Nat) (B x : Nat → ℝ) : Prop where
+  ratios : ∀ j, j < n - 2 → 0 ≤ x j ∧ x j ≤ 1
+  root : B (2 * n - 2) ≤ x (n - 2)
+
+/-- open domain: ratios in `(0,1)`, root height above the oldest tip -/
+structure RatioDomOpen (n : Nat) (B x : Nat → ℝ) : Prop where
+  ratios : ∀ j, j < n - 2 → 0 < x j ∧ x j < 1
+  root : B (2 * n - 2) < x (n - 2)
+
+theorem RatioDomOpen.closed {B x : Nat → ℝ} (h : RatioDomOpen n B x) : RatioDom n B x :=
+  ⟨fun j hj => ⟨le_of_lt (h.ratios j hj).1, le_of_lt (h.ratios j hj).2⟩, le_of_lt h.root⟩
+
+section ratio
+variable (s x : Nat → ℝ)
+
+/-- along every forward pair: the parent is above its own bound, the child above its own bound,
+and the child is not older than the parent -/
+theorem ratio_pairs (hT : WF n T) (hn : 2 ≤ n)
+    (hx : RatioDom n (bounds n s (postorder n T)) x) :
+    ∀ a ∈ forwardIndices n T,
+      (bounds n s (postorder n T) (n + a.1)
+          ≤ ratioFwd n (bounds n s (postorder n T)) (forwardIndices n T) x a.1 ∧
+        bounds n s (postorder n T) (n + a.2)
+          ≤ ratioFwd n (bounds n s (postorder n T)) (forwardIndices n T) x a.2) ∧
+      ratioFwd n (bounds n s (postorder n T)) (forwardIndices n T) x a.2
+        ≤ ratioFwd n (bounds n s (postorder n T)) (forwardIndices n T) x a.1 := by
+  set B := bounds n s (postorder n T) with hB
+  set h := ratioFwd n B (forwardIndices n T) x with hh
+  obtain ⟨spec, hroot⟩ := ratio_spec x hT B
+  have hmono := fwd_bound_mono hT s
+  have step : ∀ a ∈ forwardIndices n T, B (n + a.1) ≤ h a.1 → B (n + a.2) ≤ h a.2 ∧ h a.2 ≤ h a.1 := by
+    intro a ha hp
+    have e := spec a ha
+    have hr := hx.ratios a.2 (fwd_child_lt hT a ha).1
+    have hd : 0 ≤ h a.1 - B (n + a.2) := by linarith [hmono a ha]
+    rw [← hh] at e
+    constructor
+    · rw [e]; nlinarith [mul_nonneg hr.1 hd]
+    · rw [e]; nlinarith [mul_le_of_le_one_left hd hr.2]
+  have hP := Reach.ind (P := fun j => B (n + j) ≤ h j) (fwd_reach hT hn)
+    (fun j hj => by
+      subst hj
+      show B (n + (n - 2)) ≤ h (n - 2)
+      rw [hh, hroot, show n + (n - 2) = 2 * n - 2 by omega]; exact hx.root)
+    (fun a ha hp => (step a ha hp).1)
+  intro a ha
+  exact ⟨hP a ha, (step a ha (hP a ha).1).2⟩
+
+/-- every internal node lies at or above its bound -/
+theorem ratio_ge_bound (hT : WF n T) (hn : 2 ≤ n)
+    (hx : RatioDom n (bounds n s (postorder n T)) x) {i : Nat} (h1 : n ≤ i) (h2 : i ≤ 2 * n - 2) :
+    bounds n s (postorder n T) i
+      ≤ ratioFwd n (bounds n s (postorder n T)) (forwardIndices n T) x (i - n) := by
+  rcases Nat.eq_or_lt_of_le h2 with rfl | hlt
+  · rw [show 2 * n - 2 - n = n - 2 by omega, (ratio_spec x hT _).2]; exact hx.root
+  · have : i ∈ (T.pre n).map Prod.snd := (pre_children_perm hT).mem_iff.mpr (List.mem_range.mpr hlt)
+    obtain ⟨b, hb, rfl⟩ := List.mem_map.mp this
+    have hmem : (b.1 - n, b.2 - n) ∈ forwardIndices n T := fwd_mem.mpr ⟨b, hb, h1, rfl⟩
+    have := ((ratio_pairs s x hT hn hx _ hmem).1).2
+    simpa [Nat.add_sub_cancel' h1] using this
+
+/-- **ratio_valid**: ratios in `[0,1]` and a root height at least the oldest tip give a valid time
+tree: every tip sits at its sampling time, and along every edge `(parent, child)` of the tree
+the parent is at least as old as the child. -/
+theorem ratio_valid (hT : WF n T) (hn : 2 ≤ n)
+    (hx : RatioDom n (bounds n s (postorder n T)) x) :
+    (∀ i, i < n →
+      nodeHeights n s (ratioFwd n (bounds n s (postorder n T)) (forwardIndices n T) x) i = s i) ∧
+    ∀ a ∈ preorder n T,
+      nodeHeights n s (ratioFwd n (bounds n s (postorder n T)) (forwardIndices n T) x) a.2
+        ≤ nodeHeights n s (ratioFwd n (bounds n s (postorder n T)) (forwardIndices n T) x) a.1 := by
+  refine ⟨fun i hi => by simp [nodeHeights, hi], ?_⟩
+  intro a ha
+  obtain ⟨h1, h2, _, h4⟩ := pre_mem hT.tipsOK a ha
+  have hi := hT.ints
+  have hp : ¬ a.1 < n := by omega
+  by_cases hc : n ≤ a.2
+  · have hmem : (a.1 - n, a.2 - n) ∈ forwardIndices n T := fwd_mem.mpr ⟨a, ha, hc, rfl⟩
+    have := (ratio_pairs s x hT hn hx _ hmem).2
+    simpa [nodeHeights, hp, show ¬ a.2 < n by omega] using this
+  · have hc' : a.2 < n := by omega
+    have hb := bounds_mono hT s a ha
+    have hg := ratio_ge_bound s x hT hn hx (i := a.1) h1 (by omega)
+    simp only [nodeHeights, hp, hc', if_true, if_false]
+    calc s a.2 = bounds n s (T.post n) a.2 := (bounds_tip s _ hc').symm
+      _ ≤ bounds n s (T.post n) a.1 := hb
+      _ ≤ _ := hg
+
+/-- **ratio_valid_strict**: in the open domain (ratios in `(0,1)`, root above the oldest tip)
+every parent is strictly older than each of its children, so every branch is strictly positive. -/
+theorem ratio_valid_strict (hT : WF n T) (hn : 2 ≤ n)
+    (hx : RatioDomOpen n (bounds n s (postorder n T)) x) :
+    (∀ i, n ≤ i → i ≤ 2 * n - 2 → bounds n s (postorder n T) i
+        < ratioFwd n (bounds n s (postorder n T)) (forwardIndices n T) x (i - n)) ∧
+    ∀ a ∈ preorder n T,
+      nodeHeights n s (ratioFwd n (bounds n s (postorder n T)) (forwardIndices n T) x) a.2
+        < nodeHeights n s (ratioFwd n (bounds n s (postorder n T)) (forwardIndices n T) x) a.1 := by
+  set B := bounds n s (postorder n T) with hB
+  set h := ratioFwd n B (forwardIndices n T) x with hh
+  obtain ⟨spec, hroot⟩ := ratio_spec x hT B
+  have hmono := fwd_bound_mono hT s
+  have step : ∀ a ∈ forwardIndices n T, B (n + a.1) < h a.1 → B (n + a.2) < h a.2 ∧ h a.2 < h a.1 := by
+    intro a ha hp
+    have e := spec a ha
+    have hr := hx.ratios a.2 (fwd_child_lt hT a ha).1
+    have hd : 0 < h a.1 - B (n + a.2) := by linarith [hmono a ha]
+    rw [← hh] at e
+    constructor
+    · rw [e]; nlinarith [mul_pos hr.1 hd]
+    · rw [e]; nlinarith [mul_lt_of_lt_one_left hd hr.2]
+  have hP := Reach.ind (P := fun j => B (n + j) < h j) (fwd_reach hT hn)
+    (fun j hj => by
+      subst hj
+      show B (n + (n - 2)) < h (n - 2)
+      rw [hh, hroot, show n + (n - 2) = 2 * n - 2 by omega]; exact hx.root)
+    (fun a ha hp => (step a ha hp).1)
+  have hgt : ∀ i, n ≤ i → i ≤ 2 * n - 2 → B i < h (i - n) := by
+    intro i h1 h2
+    rcases Nat.eq_or_lt_of_le h2 with rfl | hlt
+    · rw [show 2 * n - 2 - n = n - 2 by omega, hh, hroot]; exact hx.root
+    · have : i ∈ (T.pre n).map Prod.snd := (pre_children_perm hT).mem_iff.mpr (List.mem_range.mpr hlt)
+      obtain ⟨b, hb, rfl⟩ := List.mem_map.mp this
+      have hmem : (b.1 - n, b.2 - n) ∈ forwardIndices n T := fwd_mem.mpr ⟨b, hb, h1, rfl⟩
+      have := (hP _ hmem).2
+      simpa [Nat.add_sub_cancel' h1] using this
+  refine ⟨hgt, ?_⟩
+  intro a ha
+  obtain ⟨h1, h2, _, h4⟩ := pre_mem hT.tipsOK a ha
+  have hi := hT.ints
+  have hp : ¬ a.1 < n := by omega
+  by_cases hc : n ≤ a.2
+  · have hmem : (a.1 - n, a.2 - n) ∈ forwardIndices n T := fwd_mem.mpr ⟨a, ha, hc, rfl⟩
+    have := (step _ hmem (hP _ hmem).1).2
+    simpa [nodeHeights, hp, show ¬ a.2 < n by omega] using this
+  · have hc' : a.2 < n := by omega
+    have hb := bounds_mono hT s a ha
+    have hg := hgt a.1 h1 (by omega)
+    simp only [nodeHeights, hp, hc', if_true, if_false]
+    calc s a.2 = B a.2 := (bounds_tip s _ hc').symm
+      _ ≤ B a.1 := hb
+      _ < _ := hg
+
+end ratio
+
+/-! ## branch lengths -/
+
+/-- the child-sorted pre-order holds each edge at the position of its child -/
+theorem sorted_get_of_mem (hT : WF n T) {a : Nat × Nat} (ha : a ∈ preorder n T) :
+    (indicesSorted n T).getD a.2 (0, 0) = a := by
+  obtain ⟨h1, h2, _, h4⟩ := pre_mem hT.tipsOK a ha
+  have hi := hT.ints
+  obtain ⟨hm, he⟩ := sorted_get hT (i := a.2) (by omega)
+  have hnd := idx_nodup hT.tipsOK
+  rw [idx_eq, List.nodup_cons] at hnd
+  exact List.inj_on_of_nodup_map hnd.2 hm ha he
+
+/-- **branch_eq**: for ANY node heights `H`, `branch_lengths()[child] = H[parent] − H[child]` for
+every edge `(parent, child)` of the tree. -/
+theorem branch_eq (hT : WF n T) (H : Nat → ℝ) :
+    ∀ a ∈ preorder n T, (branchLengths (indicesSorted n T) H).getD a.2 0 = H a.1 - H a.2 := by
+  intro a ha
+  unfold branchLengths
+  have : (0 : ℝ) = (fun a : Nat × Nat => H a.1 - H a.2) (0, 0) := by simp
+  rw [this, List.getD_map, sorted_get_of_mem hT ha]
+
+/-- **ratio_branch_nonneg**: under the ratio parameterisation every branch length is
+`parent − child` and non-negative (strictly positive in the open domain). -/
+theorem ratio_branch_nonneg (hT : WF n T) (hn : 2 ≤ n) (s x : Nat → ℝ)
+    (hx : RatioDom n (bounds n s (postorder n T)) x) :
+    ∀ a ∈ preorder n T,
+      0 ≤ (branchLengths (indicesSorted n T)
+        (nodeHeights n s (ratioFwd n (bounds n s (postorder n T)) (forwardIndices n T) x))).getD a.2 0 := by
+  intro a ha
+  rw [branch_eq hT _ a ha]
+  linarith [(ratio_valid s x hT hn hx).2 a ha]
+
+theorem ratio_branch_pos (hT : WF n T) (hn : 2 ≤ n) (s x : Nat → ℝ)
+    (hx : RatioDomOpen n (bounds n s (postorder n T)) x) :
+    ∀ a ∈ preorder n T,
+      0 < (branchLengths (indicesSorted n T)
+        (nodeHeights n s (ratioFwd n (bounds n s (postorder n T)) (forwardIndices n T) x))).getD a.2 0 := by
+  intro a ha
+  rw [branch_eq hT _ a ha]
+  linarith [(ratio_valid_strict s x hT hn hx).2 a ha]
+
+/-! ## the ratio transform is invertible -/
+
+/-- **ratio_inv_fwd**: `inverse(forward(x)) = x` on all `n-1` positions, provided no parent height
+coincides with its child's bound (guaranteed in the open domain, see `ratio_inv_fwd_open`). -/
+theorem ratio_inv_fwd (hT : WF n T) (hn : 2 ≤ n) (s x : Nat → ℝ)
+    (hne : ∀ a ∈ forwardIndices n T,
+      ratioFwd n (bounds n s (postorder n T)) (forwardIndices n T) x a.1
+        ≠ bounds n s (postorder n T) (n + a.2)) :
+    ∀ j, j < n - 1 →
+      ratioInv n (bounds n s (postorder n T)) (indicesSorted n T)
+        (ratioFwd n (bounds n s (postorder n T)) (forwardIndices n T) x) j = x j := by
+  intro j hj
+  obtain ⟨spec, hroot⟩ := ratio_spec x hT (bounds n s (postorder n T))
+  unfold ratioInv
+  by_cases hj2 : j < n - 2
+  · rw [if_pos hj2]
+    obtain ⟨hm, he⟩ := sorted_get hT (i := n + j) (by omega)
+    set a := (indicesSorted n T).getD (n + j) (0, 0) with ha
+    have h1 := (pre_mem hT.tipsOK a hm).1
+    have hmem : (a.1 - n, a.2 - n) ∈ forwardIndices n T := fwd_mem.mpr ⟨a, hm, by omega, rfl⟩
+    have e := spec _ hmem
+    have hd := hne _ hmem
+    simp only [he, Nat.add_sub_cancel_left] at e hd ⊢
+    rw [e]
+    have hd' : ratioFwd n (bounds n s (postorder n T)) (forwardIndices n T) x (a.1 - n)
+        - bounds n s (postorder n T) (n + j) ≠ 0 := sub_ne_zero.mpr hd
+    field_simp
+    ring
+  · rw [if_neg hj2, hroot]
+    congr 1; omega
+
+/-- in the open domain no parent sits at its child's bound -/
+theorem ratio_image_nondegenerate (hT : WF n T) (hn : 2 ≤ n) (s x : Nat → ℝ)
+    (hx : RatioDomOpen n (bounds n s (postorder n T)) x) :
+    ∀ a ∈ forwardIndices n T,
+      ratioFwd n (bounds n s (postorder n T)) (forwardIndices n T) x a.1
+        ≠ bounds n s (postorder n T) (n + a.2) := by
+  intro a ha
+  obtain ⟨b, hb, hc, rfl⟩ := fwd_mem.mp ha
+  obtain ⟨h1, h2, _, _⟩ := pre_mem hT.tipsOK b hb
+  have hi := hT.ints
+  have hgt := (ratio_valid_strict s x hT hn hx).1 b.1 h1 (by omega)
+  have hm := bounds_mono hT s b hb
+  simp only [postorder, Nat.add_sub_cancel' hc] at hm ⊢
+  exact ne_of_gt (lt_of_le_of_lt hm hgt)
+
+/-- **ratio_inv_fwd_open**: on the whole open domain the inverse undoes the forward map -/
+theorem ratio_inv_fwd_open (hT : WF n T) (hn : 2 ≤ n) (s x : Nat → ℝ)
+    (hx : RatioDomOpen n (bounds n s (postorder n T)) x) :
+    ∀ j, j < n - 1 →
+      ratioInv n (bounds n s (postorder n T)) (indicesSorted n T)
+        (ratioFwd n (bounds n s (postorder n T)) (forwardIndices n T) x) j = x j :=
+  ratio_inv_fwd hT hn s x (ratio_image_nondegenerate hT hn s x hx)
+
+/-- **ratio_fwd_inv**: `forward(inverse(y)) = y` for internal heights `y` in which no parent sits
+exactly at its child's bound (true of every valid time tree with positive branches). -/
+theorem ratio_fwd_inv (hT : WF n T) (hn : 2 ≤ n) (s y : Nat → ℝ)
+    (hne : ∀ a ∈ forwardIndices n T, y a.1 ≠ bounds n s (postorder n T) (n + a.2)) :
+    ∀ j, j < n - 1 →
+      ratioFwd n (bounds n s (postorder n T)) (forwardIndices n T)
+        (ratioInv n (bounds n s (postorder n T)) (indicesSorted n T) y) j = y j := by
+  set B := bounds n s (postorder n T) with hB
+  set r := ratioInv n B (indicesSorted n T) y with hr
+  obtain ⟨spec, hroot⟩ := ratio_spec r hT B
+  have hi := hT.ints
+  have rroot : r (n - 2) = y (n - 2) := by simp [hr, ratioInv]
+  have rval : ∀ a ∈ forwardIndices n T, r a.2 = (y a.2 - B (n + a.2)) / (y a.1 - B (n + a.2)) := by
+    intro a ha
+    obtain ⟨b, hb, hc, rfl⟩ := fwd_mem.mp ha
+    have hlt := (fwd_child_lt hT _ ha).1
+    simp only [hr, ratioInv] at hlt ⊢
+    rw [if_pos hlt, Nat.add_sub_cancel' hc, sorted_get_of_mem hT hb]
+  have hP := Reach.ind (P := fun j => ratioFwd n B (forwardIndices n T) r j = y j) (fwd_reach hT hn)
+    (fun j hj => by subst hj; show ratioFwd n B (forwardIndices n T) r (n - 2) = y (n - 2); rw [hroot, rroot])
+    (fun a ha hp => by
+      show ratioFwd n B (forwardIndices n T) r a.2 = y a.2
+      rw [spec a ha, hp, rval a ha]
+      have hd : y a.1 - B (n + a.2) ≠ 0 := sub_ne_zero.mpr (hne a ha)
+      field_simp
+      ring)
+  intro j hj
+  by_cases hj2 : j < n - 2
+  · have : n + j ∈ (T.pre n).map Prod.snd :=
+      (pre_children_perm hT).mem_iff.mpr (List.mem_range.mpr (by omega))
+    obtain ⟨b, hb, hbj⟩ := List.mem_map.mp this
+    have hmem : (b.1 - n, b.2 - n) ∈ forwardIndices n T := fwd_mem.mpr ⟨b, hb, by omega, rfl⟩
+    have := (hP _ hmem).2
+    simpa [hbj] using this
+  · rw [show j = n - 2 by omega, hroot, rroot]
+
+/-! ## the difference transform -/
+
+section diff
+variable (mx : ℝ → ℝ → ℝ) (s x : Nat → ℝ)
+
+/-- the node heights the model returns coincide with the post-order loop's array everywhere -/
+theorem diff_heights_eq (hT : WF n T) (i : Nat) :
+    nodeHeights n s (diffFwd n mx s (postorder n T) x) i = diffFwdAll n mx s (postorder n T) x i := by
+  unfold nodeHeights diffFwd
+  split
+  · rename_i hi; exact ((diff_spec mx s x hT).2 i hi).symm
+  · rename_i hi; rw [Nat.add_sub_cancel' (by omega)]
+
+/-- **diff_valid**: non-negative increments (and any `mx` that dominates both arguments: the
+maximum, or the smooth maximum) give a valid time tree: tips at their sampling times, every
+parent at least as old as each child; strictly older for positive increments. -/
+theorem diff_valid (hT : WF n T) (hmx : ∀ a b, a ≤ mx a b ∧ b ≤ mx a b)
+    (hx : ∀ j, j < n - 1 → 0 ≤ x j) :
+    (∀ i, i < n → nodeHeights n s (diffFwd n mx s (postorder n T) x) i = s i) ∧
+    ∀ a ∈ preorder n T,
+      nodeHeights n s (diffFwd n mx s (postorder n T) x) a.2
+        ≤ nodeHeights n s (diffFwd n mx s (postorder n T) x) a.1 := by
+  refine ⟨fun i hi => by simp [nodeHeights, hi], ?_⟩
+  intro a ha
+  rw [diff_heights_eq mx s x hT, diff_heights_eq mx s x hT]
+  obtain ⟨b, hb, h1, h2⟩ := pre_to_post n T a ha
+  obtain ⟨p1, p2, _, _⟩ := post_mem hT.tipsOK b hb
+  have hi := hT.ints
+  have e := (diff_spec mx s x hT).1 b hb
+  have hx' := hx (b.1 - n) (by omega)
+  rw [← h1, show postorder n T = T.post n from rfl, e]
+  rcases h2 with h2 | h2 <;> rw [← h2]
+  · linarith [(hmx (diffFwdAll n mx s (T.post n) x b.2.1) (diffFwdAll n mx s (T.post n) x b.2.2)).1]
+  · linarith [(hmx (diffFwdAll n mx s (T.post n) x b.2.1) (diffFwdAll n mx s (T.post n) x b.2.2)).2]
+
+theorem diff_valid_strict (hT : WF n T) (hmx : ∀ a b, a ≤ mx a b ∧ b ≤ mx a b)
+    (hx : ∀ j, j < n - 1 → 0 < x j) :
+    ∀ a ∈ preorder n T,
+      nodeHeights n s (diffFwd n mx s (postorder n T) x) a.2
+        < nodeHeights n s (diffFwd n mx s (postorder n T) x) a.1 := by
+  intro a ha
+  rw [diff_heights_eq mx s x hT, diff_heights_eq mx s x hT]
+  obtain ⟨b, hb, h1, h2⟩ := pre_to_post n T a ha
+  obtain ⟨p1, p2, _, _⟩ := post_mem hT.tipsOK b hb
+  have hi := hT.ints
+  have e := (diff_spec mx s x hT).1 b hb
+  have hx' := hx (b.1 - n) (by omega)
+  rw [← h1, show postorder n T = T.post n from rfl, e]
+  rcases h2 with h2 | h2 <;> rw [← h2]
+  · linarith [(hmx (diffFwdAll n mx s (T.post n) x b.2.1) (diffFwdAll n mx s (T.post n) x b.2.2)).1]
+  · linarith [(hmx (diffFwdAll n mx s (T.post n) x b.2.1) (diffFwdAll n mx s (T.post n) x b.2.2)).2]
+
+/-- `torch.max` dominates both arguments -/
+theorem max2_dominates (a b : ℝ) : a ≤ max2 a b ∧ b ≤ max2 a b := by
+  unfold max2; split
+  · exact ⟨le_of_lt ‹_›, le_refl _⟩
+  · exact ⟨le_refl _, not_lt.mp ‹_›⟩
+
+/-- **diff_inv_fwd**: `inverse(forward(x)) = x` on all `n-1` positions, for any `mx` (the same
+function is used in both directions), with no condition on `x`. -/
+theorem diff_inv_fwd (hT : WF n T) :
+    ∀ j, j < n - 1 →
+      diffInv n mx s (postorder n T) (diffFwd n mx s (postorder n T) x) j = x j := by
+  intro j hj
+  obtain ⟨a, ha, haj⟩ := post_has hT hj
+  have := diffInv_spec mx s hT (diffFwd n mx s (postorder n T) x) a ha
+  rw [haj, Nat.add_sub_cancel_left] at this
+  rw [show postorder n T = T.post n from rfl] at *
+  rw [this]
+  have e := (diff_spec mx s x hT).1 a ha
+  have hh := diff_heights_eq (T := T) mx s x hT
+  rw [show postorder n T = T.post n from rfl] at hh
+  rw [hh, hh, hh, ← haj, e, haj, Nat.add_sub_cancel_left]
+  ring
+
+/-- **diff_fwd_inv**: `forward(inverse(y)) = y` on all `n-1` positions, for any `mx` and any `y`. -/
+theorem diff_fwd_inv (hT : WF n T) (y : Nat → ℝ) :
+    ∀ j, j < n - 1 →
+      diffFwd n mx s (postorder n T) (diffInv n mx s (postorder n T) y) j = y j := by
+  have hi := hT.ints
+  set x' := diffInv n mx s (postorder n T) y with hx'
+  have spec := diff_spec mx s x' hT
+  have key : ∀ m i, i < m → i < 2 * n - 1 →
+      diffFwdAll n mx s (T.post n) x' i = nodeHeights n s y i := by
+    intro m
+    induction m with
+    | zero => intro i hi; omega
+    | succ m ih =>
+      intro i hi hlt
+      by_cases hin : i < n
+      · rw [spec.2 i hin]; simp [nodeHeights, hin]
+      · obtain ⟨a, ha, hai⟩ := post_has hT (j := i - n) (by omega)
+        have hai' : a.1 = i := by omega
+        obtain ⟨_, _, c1, c2⟩ := post_mem hT.tipsOK a ha
+        have e := spec.1 a ha
+        have ev := diffInv_spec mx s hT y a ha
+        rw [hai'] at e ev c1 c2
+        rw [e, ih a.2.1 (by omega) (by omega), ih a.2.2 (by omega) (by omega)]
+        rw [hx', show postorder n T = T.post n from rfl, ev]
+        ring
+  intro j hj
+  unfold diffFwd
+  rw [show postorder n T = T.post n from rfl, key (n + j + 1) (n + j) (by omega) (by omega)]
+  simp [nodeHeights]
+
+end diff
+
+/-! ## sampling dates → leaf heights -/
+
+/-- **leaf_heights**: dates whose smallest value is 0 are kept as ages; any other vector is read
+as calendar dates, each tip getting `most recent date − date ≥ 0`. -/
+theorem leaf_heights (dates : List ℝ) :
+    (listMin dates = 0 → leafHeights dates = dates) ∧
+    (listMin dates ≠ 0 →
+      leafHeights dates = dates.map (fun d => listMax dates - d) ∧
+      ∀ d ∈ dates, 0 ≤ listMax dates - d) := by
+  constructor
+  · intro h
+    unfold leafHeights
+    rw [if_neg]
+    rw [h]; simp
+  · intro h
+    constructor
+    · unfold leafHeights
+      rw [if_pos]
+      exact lt_or_gt_of_ne h
+    · intro d hd
+      have := (foldl_max_ge dates (dates.headD 0)).2 d hd
+      unfold listMax
+      linarith
+
+
+/-! ## non-vacuity: a concrete heterochronous 4-taxon tree meets every hypothesis set -/
+section examples
+
+/-- `((T0,T1),(T2,T3))` -/
+def T4 : BTree := .node (.node (.leaf 0) (.leaf 1)) (.node (.leaf 2) (.leaf 3))
+/-- sampling times 0, 1, 2, 3 -/
+noncomputable def s4 : Nat → ℝ := fun i => (i : ℝ)
+/-- ratios 1/2, 1/2 and root height 5 -/
+noncomputable def x4 : Nat → ℝ := fun j => if j = 2 then 5 else 1 / 2
+
+theorem wf4 : WF 4 T4 := by unfold WF T4; decide
+
+theorem dom4 : RatioDomOpen 4 (bounds 4 s4 (postorder 4 T4)) x4 := by
+  refine ⟨fun j hj => ?_, ?_⟩
+  · have : j ≠ 2 := by omega
+    simp only [x4, this, if_false]; norm_num
+  · obtain ⟨_, x, hx, e⟩ := root_bound_is_oldest_tip wf4 (by norm_num) s4
+    have hx' : x ≤ 3 := by
+      simp only [T4, BTree.tips, List.cons_append, List.nil_append, List.mem_cons,
+        List.not_mem_nil, or_false] at hx
+      omega
+    have : s4 x ≤ 3 := by simp only [s4]; exact_mod_cast hx'
+    show bounds 4 s4 (postorder 4 T4) (2 * 4 - 2) < x4 (4 - 2)
+    rw [← e]; simp only [x4]; norm_num; linarith
+
+example : ∀ a ∈ preorder 4 T4,
+    nodeHeights 4 s4 (ratioFwd 4 (bounds 4 s4 (postorder 4 T4)) (forwardIndices 4 T4) x4) a.2
+      < nodeHeights 4 s4 (ratioFwd 4 (bounds 4 s4 (postorder 4 T4)) (forwardIndices 4 T4) x4) a.1 :=
+  (ratio_valid_strict s4 x4 wf4 (by norm_num) dom4).2
+
+example : ∀ a ∈ preorder 4 T4,
+    nodeHeights 4 s4 (ratioFwd 4 (bounds 4 s4 (postorder 4 T4)) (forwardIndices 4 T4) x4) a.2
+      ≤ nodeHeights 4 s4 (ratioFwd 4 (bounds 4 s4 (postorder 4 T4)) (forwardIndices 4 T4) x4) a.1 :=
+  (ratio_valid s4 x4 wf4 (by norm_num) dom4.closed).2
+
+example : ∀ j, j < 3 →
+    ratioInv 4 (bounds 4 s4 (postorder 4 T4)) (indicesSorted 4 T4)
+      (ratioFwd 4 (bounds 4 s4 (postorder 4 T4)) (forwardIndices 4 T4) x4) j = x4 j :=
+  ratio_inv_fwd_open wf4 (by norm_num) s4 x4 dom4
+
+/-- the hypothesis of `ratio_fwd_inv` is met by every image of the open domain -/
+example : ∀ j, j < 3 →
+    ratioFwd 4 (bounds 4 s4 (postorder 4 T4)) (forwardIndices 4 T4)
+      (ratioInv 4 (bounds 4 s4 (postorder 4 T4)) (indicesSorted 4 T4)
+        (ratioFwd 4 (bounds 4 s4 (postorder 4 T4)) (forwardIndices 4 T4) x4)) j
+      = ratioFwd 4 (bounds 4 s4 (postorder 4 T4)) (forwardIndices 4 T4) x4 j :=
+  ratio_fwd_inv wf4 (by norm_num) s4 _ (ratio_image_nondegenerate wf4 (by norm_num) s4 x4 dom4)
+
+example : ∀ a ∈ preorder 4 T4,
+    nodeHeights 4 s4 (diffFwd 4 max2 s4 (postorder 4 T4) (fun _ => 1)) a.2
+      < nodeHeights 4 s4 (diffFwd 4 max2 s4 (postorder 4 T4) (fun _ => 1)) a.1 :=
+  diff_valid_strict max2 s4 _ wf4 max2_dominates (fun _ _ => one_pos)
+
+example : SubAt T4 4 (.node (.leaf 2) (.leaf 3)) 5 := SubAt.right (l := .node (.leaf 0) (.leaf 1)) SubAt.refl
+
+end examples
+
+/-! ## device / dtype moves (generated table) -/
+
+/-- the translator recognised every `cuda/cpu/to` body -/
+theorem translator_recognised : translatorOk = true := by decide
+
+theorem device_table_keeps :
+    ∀ e ∈ table, e.2.2.apply .ratio = some .ratio ∧ e.2.2.apply .difference = some .difference := by
+  decide
+
+/-- **device_keeps_kind**: for every tree-model class carrying a node-height transform and each of
+`cuda`, `cpu`, `to` (bodies regenerated from the source), the parameterisation in force after
+the call is the one in force before it. -/
+theorem device_keeps_kind (e : String × String × DevAction) (he : e ∈ table) (k : Kind) :
+    e.2.2.apply k = some k := by
+  cases k
+  · exact (device_table_keeps e he).1
+  · exact (device_table_keeps e he).2
+
+/-- hence any sequence of device / dtype moves keeps the parameterisation -/
+theorem device_moves_keep_kind (k : Kind) (moves : List (String × String × DevAction))
+    (h : ∀ e ∈ moves, e ∈ table) :
+    moves.foldl (fun s e => s.bind e.2.2.apply) (some k) = some k := by
+  induction moves with
+  | nil => rfl
+  | cons e es ih =>
+    simp only [List.foldl_cons, Option.bind_some]
+    rw [device_keeps_kind e (h e (by simp)) k]
+    exact ih (fun e he => h e (by simp [he]))
+
+/-- the constructor installs the ratio transform exactly when `ratios_root_height` is given and the
+difference transform when `shifts` is -/
+theorem init_kinds :
+    inits = [("ReparameterizedTimeTreeModel", "ratios_root_height", .ratio),
+             ("ReparameterizedTimeTreeModel", "shifts", .difference)] := by decide
+
+example : ("ReparameterizedTimeTreeModel", "cpu", DevAction.reinstall) ∈ table := by decide
+
 end TTProps.C06
